@@ -405,10 +405,10 @@ func (c06) Execute(h *core.History) *core.Outcome {
 			o.Viol = &core.Violation{Oracle: "failed-op-reports-error", Event: i, Sig: "C06|no-error|" + e.Ev, Detail: fmt.Sprintf("%q gave %s", src, res.Class)}
 			break
 		}
-		if !expectErr && e.Fault == nil && res.Class != "value" {
-			// the model does not know this outcome: harness/generator defect, never a violation
-			st.Discarded = true
-			st.Panic(fmt.Sprintf("unexpected %s for %q: %v", res.Class, src, truncAll(res.Errs)))
+		if !expectErr && e.Fault == nil && res.Class != "value" && o.Viol == nil {
+			// every operand of this event exists in the model with the right kind: the operation is valid
+			o.Viol = &core.Violation{Oracle: "valid-operation-succeeds", Event: i, Sig: "C06|valid-operation-fails|" + c06Family(e.Ev) + "|" + sc,
+				Detail: fmt.Sprintf("%q gives %s %v although the model says it is a valid operation", src, res.Class, truncAll(res.Errs))}
 			break
 		}
 		if touched != "" {
